@@ -108,8 +108,8 @@ fn op_js<'tcx>(tcx: TyCtxt<'tcx>, o: &Operand<'tcx>) -> String {
             // named const / static item referenced
             if let Const::Unevaluated(u, _) = &c.const_ {
                 let _ = write!(extra, ",\"item\":\"{}\"", esc(&tcx.def_path_str(u.def)));
-                if u.promoted.is_some() {
-                    extra.push_str(",\"promoted\":1");
+                if let Some(pi) = u.promoted {
+                    let _ = write!(extra, ",\"promoted\":1,\"pidx\":{}", pi.index());
                 }
             }
             if let Some(did) = c.check_static_ptr(tcx) {
@@ -355,6 +355,41 @@ impl Callbacks for Cb {
                     }
                     nbodies += 1;
                 }
+            }
+        }
+        // promoted constants of the handler tables (`fn supported_types(&self) -> &[&str] { &["gif", ..] }`): needed to
+        // compare the sniffer's container ids with the handler tables at compile-time values
+        for (def, kind, _b) in taken.iter() {
+            if !matches!(kind, DefKind::Fn | DefKind::AssocFn) {
+                continue;
+            }
+            let path = tcx.def_path_str(def.to_def_id());
+            if !path.ends_with("::supported_types") {
+                continue;
+            }
+            let proms = tcx.promoted_mir(def.to_def_id());
+            for (pi, pb) in proms.iter_enumerated() {
+                let mut vals: Vec<String> = vec![];
+                for bb in pb.basic_blocks.iter() {
+                    for st in bb.statements.iter() {
+                        if let StatementKind::Assign(b) = &st.kind {
+                            match &b.1 {
+                                Rvalue::Aggregate(_, ops) => {
+                                    for o in ops.iter() {
+                                        if let Operand::Constant(c) = o {
+                                            vals.push(format!("\"{}\"", esc(&format!("{:?}", c))));
+                                        }
+                                    }
+                                }
+                                Rvalue::Use(Operand::Constant(c), ..) => {
+                                    vals.push(format!("\"{}\"", esc(&format!("{:?}", c))));
+                                }
+                                _ => {}
+                            }
+                        }
+                    }
+                }
+                let _ = writeln!(out, "{{\"rec\":\"promoted\",\"f\":\"{}\",\"pidx\":{},\"consts\":[{}]}}", esc(&path), pi.index(), vals.join(","));
             }
         }
         // ADTs, statics, impls
